@@ -16,7 +16,8 @@ EXPLANATION = (
     'class body, closures resolve to the owning function, global-declared bindings land in the module '
     'table); R4 scope.locals (the masking set) is written only by Flow.add_name, so it contains every '
     'name the scope binds; R5 global and nonlocal declarations are both recorded. Agreement with '
-    'symtable on real files is NOT decided.')
+    'symtable on real files is NOT decided.'
+    " Later additions to R3: sixteen lookup scenarios on supp's own scope classes, among them sibling functions of which one declares a name global (both resolution orders) and a global statement at module level as supp's own visit_Global records it.")
 TECHNIQUE = ('visitor summaries (abstract interpretation) against the T1 evaluation-scope table + abstract '
              'interpretation of the scope-chain resolution functions + who-may-write rule on scope.locals')
 
